@@ -28,7 +28,8 @@ MAX_TIMEOUTS = {"quick": 1, "thorough": 20}
 REQUIRED = {"build_files": 300, "residue_selections_checked": 5000, "molecule_blocks": 600, "ranges_spanning_other_names": 100,
             "start_specs": 150, "ligand_specs": 100, "ligands_built": 40, "split_specs": 100, "distance_restraint_blocks": 100,
             "persistence_blocks": 60, "multi_residue_ligands": 15, "split_with_start_runs": 20, "ligand_specs_without_host_molecule": 10,
-            "split_runs_with_a_string_for_an_absent_residue": 30}
+            "split_runs_with_a_string_for_an_absent_residue": 30,
+            "build_files_on_chains_numbered_out_of_order": 50}
 _done = False
 
 
@@ -42,7 +43,7 @@ def plan(tier, seed):
         [["split", i] for i in range(n // 4)] + [["splitstart", i] for i in range(n // 15)]
 
 
-def gen_top(rng, lig=False):
+def gen_top(rng, lig=False, graft=False):
     """molecule types CH (linear, residues RA/RB), BR (other chain), W (solvent), LG (ligand)"""
     L = ["[ defaults ]", "1 2 no 1.0 1.0", "[ atomtypes ]", "A 36.0 0.0 A 0.47 2.0", "B 36.0 0.0 A 0.40 2.0"]
     mts = {}
@@ -50,8 +51,13 @@ def gen_top(rng, lig=False):
     def chain(name, n):
         res = [rng.choice(["RA", "RB"]) for _ in range(n)]
         L.extend(["[ moleculetype ]", "%s 1" % name, "[ atoms ]"])
+        rids = list(range(1, n + 1))
+        if graft and name == "BR" and n >= 4:
+            # a residue listed (and bonded) out of the order of the residue numbers, as in a grafted chain: 1 2 n 3 4 ...
+            k = rng.randint(1, n - 2)
+            rids = rids[:k] + [n] + rids[k:n - 1]
         for i, rn in enumerate(res):
-            L.append("%d %s %d %s X %d 0.0" % (i + 1, "A" if rn == "RA" else "B", i + 1, rn, i + 1))
+            L.append("%d %s %d %s X %d 0.0" % (i + 1, "A" if rn == "RA" else "B", rids[i], rn, i + 1))
         if n > 1:
             L.append("[ bonds ]")
             for i in range(1, n):
@@ -111,7 +117,10 @@ def run_build_file(rng, workdir, res):
     from polyply.src.nonbond_engine import NonBondEngine
     from polyply.src.persistence import sample_end_to_end_distances
     from polyply.src.restraints import set_restraints
-    text, mts, inst = gen_top(rng)
+    graft = rng.random() < 0.3
+    text, mts, inst = gen_top(rng, graft=graft)
+    if graft:
+        bump(res, "build_files_on_chains_numbered_out_of_order")
     nmol = len(inst)
     bl = []
     blocks = []
